@@ -161,7 +161,8 @@ def lb_edge(label, src, dst):
 
 def structural(ck, prop, tier):
     """slice-level conformance: every path of LinkedBuffer.tla's graph replayed on real streams, structure compared"""
-    plan = [('one4', 8), ('mix37', 16), ('one4x2', 16), ('one4x0', 24)] if tier == 'quick' else \
+    quick = [('one4', 8), ('mix37', 16)] if prop == 'C06' else [('one4', 16), ('one4x2', 16), ('one4x0', 24)]
+    plan = quick if tier == 'quick' else \
            [('one4', 1), ('mix37', 2), ('one4x2', 2), ('one4x0', 4), ('mix37x1', 2)]
     for name, stride in plan:
         conf = CONFS[name]
@@ -262,7 +263,7 @@ def run(prop, tier, seed, replay=None, ck=None, finish=True):
         return fin()
 
     if tier == 'quick':
-        plan = [(['ab'], [1, 4, 5, 9], [0, 1, 3, 4, 5, 9], 14, 18, 5, ['one4', 'mix37', 'one4x2', 'one4x0'], 12)]
+        plan = [(['ab'], [1, 4, 5, 9], [0, 1, 3, 4, 5, 9], 14, 18, 5, ['one4', 'mix37', 'one4x2', 'one4x0'], 24)]
     else:
         plan = [(['ab'], [1, 4, 5, 9], [1, 3, 4, 5, 9], 14, 18, 5, ['one4', 'mix37', 'mix348', 'one4x2', 'one4x0', 'mix37x1', 'big'], 1),
                 (['ab'], [1, 3, 4, 8], [2, 4, 7, 8], 12, 16, 6, ['one4', 'mix37', 'one4x2'], 16),
